@@ -635,21 +635,24 @@ Proof.
 Qed.
 
 Lemma iterm2_supported_spec name ver :
-  (name_is name "konsole" && match ver with None => true | Some _ => false end) = false ->
   iterm2_supported name ver
   = Some (name_is name "iterm2" || name_is name "wezterm" || (name_is name "konsole" && version_ge ver [22; 4; 0])).
 Proof.
-  intros H. unfold iterm2_supported, version_ge.
+  unfold iterm2_supported, version_ge.
   destruct (name_is name "konsole") eqn:Ek.
   - apply name_is_eq in Ek. subst name.
     replace (name_is (Some (bs "konsole")) "iterm2") with false by reflexivity.
     replace (name_is (Some (bs "konsole")) "wezterm") with false by reflexivity.
     replace (name_is (Some (bs "konsole")) "konsole") with true by reflexivity.
-    cbn [orb negb andb] in *. destruct ver as [v|]; [|discriminate].
+    cbn [orb negb andb] in *. destruct ver as [v|]; [|reflexivity].
     destruct (version_tuple v); reflexivity.
   - rewrite orb_false_r. cbn [andb negb]. rewrite orb_false_r.
     destruct (name_is name "iterm2" || name_is name "wezterm"); reflexivity.
 Qed.
+
+(** an unknown version of konsole counts as unsupported (no exception) *)
+Example iterm2_konsole_no_version : iterm2_supported (Some (bs "konsole")) None = Some false.
+Proof. reflexivity. Qed.
 
 Section StyleEnd.
 Variable cost : nat -> Z.
@@ -733,11 +736,8 @@ Proof.
 Qed.
 
 (** auto_image_class() from a fresh state: the most capable supported style — kitty, then
-    iterm2, then block — by the documented rules.  (Excluded: the name "konsole" coming from
-    TERM_PROGRAM with no TERM_PROGRAM_VERSION, where ITerm2Image.is_supported() raises.) *)
+    iterm2, then block — by the documented rules. *)
 Lemma auto_reports_profile st D1 D2 :
-  (let (n, v) := exp_name_version cfg p in
-   name_is n "konsole" && match v with None => true | Some _ => false end) = false ->
   pend st = [] -> timely c cfg term XTV_request D1 -> timely c cfg term KITTY_request D2 ->
   exists st',
     auto_image_class cost cfg term (st, None)
@@ -746,13 +746,13 @@ Lemma auto_reports_profile st D1 D2 :
     now st <= now st' <= now st + 2 * qtimeout cfg
                         + c * (Z.of_nat (length (stream (term XTV_request))) + 6).
 Proof.
-  intros Hk Hp H1 H2.
+  intros Hp H1 H2.
   destruct (kitty_reports_profile st D1 D2 Hp H1 H2) as (st' & E & R).
   unfold auto_image_class. fold term. rewrite E. exists st'. split; [|exact R].
   unfold exp_auto. destruct (exp_kitty cfg p); [reflexivity|].
   unfold iterm2_is_supported, cached_name_version. cbn [snd fst].
   unfold exp_iterm2. destruct (exp_name_version cfg p) as [name ver]. cbn [fst snd].
-  rewrite iterm2_supported_spec by exact Hk.
+  rewrite iterm2_supported_spec.
   destruct (name_is name "iterm2" || name_is name "wezterm" || (name_is name "konsole" && version_ge ver [22; 4; 0]));
     reflexivity.
 Qed.
@@ -776,18 +776,32 @@ Definition ex_cfg : config :=
 Definition ex_delays : list byte -> list Z := fun _ => [0; 1; 2; 3].
 Definition ex_tty : tty := {| now := 0; pend := []; tick := 0; written := [] |}.
 
-Example ex_hypotheses :
-  wf_profile ex_profile = true /\
-  timely 1 ex_cfg (profile_terminal ex_profile ex_delays) FGBG_request 3 /\
-  timely 1 ex_cfg (profile_terminal ex_profile ex_delays) XTV_request 3 /\
-  timely 1 ex_cfg (profile_terminal ex_profile ex_delays) CELL_request 3 /\
-  timely 1 ex_cfg (profile_terminal ex_profile ex_delays) KITTY_request 3 /\
-  cache_hit ex_cfg (0, 0, 0, 0) = false.
+Lemma ex_timely request :
+  In request [FGBG_request; XTV_request; CELL_request; KITTY_request] ->
+  timely 1 ex_cfg (profile_terminal ex_profile ex_delays) request 3.
 Proof.
-  split; [reflexivity|].
-  repeat split; try (vm_compute; intros; discriminate); try reflexivity;
-    try (repeat constructor; vm_compute; intros; discriminate).
+  intros H. cbn [In] in H.
+  assert (T : forall s : list (Z * list byte),
+            (fix ok (lo : Z) (s : list (Z * list byte)) : bool :=
+               match s with [] => true | u :: r => (lo <=? fst u) && (fst u <=? 3) && ok (fst u) r end) 0 s = true ->
+            3 + 1 * (Z.of_nat (length (stream s)) + 1) < 1000 ->
+            nondecr 0 s /\ Forall (fun u => fst u <= 3) s /\ 0 <= 3 /\
+            3 + 1 * (Z.of_nat (length (stream s)) + 1) < 1000).
+  { intros s. generalize 0 at 1 2. induction s as [|u s IH]; intros lo Hok Hlen.
+    - repeat split; auto; lia.
+    - apply andb_true_iff in Hok as [Hok Hr]. apply andb_true_iff in Hok as [H1 H2].
+      apply Z.leb_le in H1, H2.
+      assert (Hlen' : 3 + 1 * (Z.of_nat (length (stream s)) + 1) < 1000).
+      { unfold stream in *. cbn [map concat] in Hlen. rewrite app_length in Hlen. lia. }
+      destruct (IH (fst u) Hr Hlen') as (A & B & _ & _).
+      repeat split; auto; try lia. }
+  unfold timely. destruct H as [<-|[<-|[<-|[<-|[]]]]]; apply T; vm_compute; reflexivity.
 Qed.
+
+Example ex_hypotheses :
+  wf_profile ex_profile = true /\ cache_hit ex_cfg (0, 0, 0, 0) = false /\
+  stream (profile_terminal ex_profile ex_delays FGBG_request) <> [].
+Proof. repeat split; vm_compute; discriminate. Qed.
 
 Example ex_answers :
   fst (get_fg_bg (fun _ => 1) ex_cfg (profile_terminal ex_profile ex_delays) ex_tty)
